@@ -52,6 +52,7 @@ class PipeCore(object):
         self.last_timeouts = []
         self.defer = False        # explicit device steps: complete host frames wait in h2d_q until dev_recv()
         self.h2d_q = []
+        self.force_timeout = False   # scheduler: let the parked reader time out now (virtual time passes)
 
     # ---- helpers
     def _call(self, kind, detail=None):
@@ -105,6 +106,10 @@ class PipeCore(object):
             if not self.dev.wire and self.dev.lazy:
                 self.dev.pump()
             if not self.dev.wire:
+                if self.force_timeout:
+                    self.force_timeout = False
+                    self.clock.advance(1000.0)
+                    raise self.exc_timeout('read timed out (scheduler: nothing will ever arrive)')
                 return self._stalled(n, timeout)
             m = self.dev.wire.pop(0)
             self.cur_meta = m
@@ -181,13 +186,15 @@ class PipeCore(object):
             ev['_payload'] = payload
             ev['_raw'] = raw
             if self.defer:
-                self.h2d_q.append(dict(cmd=ev['cmd'], a0=h['a0'], a1=h['a1'], raw=raw))
+                self.h2d_q.append(dict(cmd=ev['cmd'], a0=h['a0'], a1=h['a1'], raw=raw, who=who))
             else:
+                self.dev.cur_writer = who
                 self.dev.feed(raw)
 
 
     def dev_recv(self):
         h = self.h2d_q.pop(0)
+        self.dev.cur_writer = h['who']
         self.dev.feed(h['raw'])
 
 
